@@ -1,5 +1,71 @@
-(* C06: placeholder while the proofs are being written *)
-From LD Require Import Base Sha1.
-Theorem C06_sha1_vector : hex_encode (sha1 (s "abc")) = s "a9993e364706816aba3e25717850c26c9cd0d89d".
-Proof. exact sha1_abc. Qed.
-Print Assumptions C06_sha1_vector.
+(* C06 Bucket value is the canonical LaunchDarkly hash (SHA-1 = FIPS 180-4 is validated by the standard's vectors;
+   that crypto/sha1 implements it is what the correspondence run checks) *)
+From LD Require Import Base F32 Data Sha1 Model Ops Bucket Buffer BucketSpec.
+
+Theorem C06_hash_input_string : forall enable x is_exp seed kind key attr salt i v,
+  (is_exp || negb (ref_defined attr) || negb (ref_has_err attr)) = true ->
+  ctx_by_kind x kind = Some i -> get_value_for_ref i (effective_ref is_exp attr) = JStr v ->
+  compute_bucket enable x is_exp seed kind key attr salt =
+  Ok (hash_to_bucket (canonical_input seed key salt v (effective_secondary enable is_exp i)), BNone).
+Proof. exact bucket_of_string. Qed.
+Print Assumptions C06_hash_input_string.
+
+Theorem C06_hash_input_integer : forall enable x is_exp seed kind key attr salt i d,
+  (is_exp || negb (ref_defined attr) || negb (ref_has_err attr)) = true ->
+  ctx_by_kind x kind = Some i -> get_value_for_ref i (effective_ref is_exp attr) = JNum d -> dy_is_int d = true ->
+  compute_bucket enable x is_exp seed kind key attr salt =
+  Ok (hash_to_bucket (canonical_input seed key salt (dec (dy_to_int d)) (effective_secondary enable is_exp i)), BNone).
+Proof. exact bucket_of_integer. Qed.
+Print Assumptions C06_hash_input_integer.
+
+Theorem C06_invalid_bucket_by_is_error : forall enable x seed kind key attr salt,
+  ref_defined attr = true -> ref_has_err attr = true ->
+  compute_bucket enable x false seed kind key attr salt = Err (EBadAttr (ref_string attr)).
+Proof. exact bucket_bad_ref. Qed.
+Print Assumptions C06_invalid_bucket_by_is_error.
+
+Theorem C06_missing_kind : forall enable x is_exp seed kind key attr salt,
+  (is_exp || negb (ref_defined attr) || negb (ref_has_err attr)) = true -> ctx_by_kind x kind = None ->
+  compute_bucket enable x is_exp seed kind key attr salt = Ok (f32_zero, BLacksKind).
+Proof. exact bucket_missing_kind. Qed.
+Print Assumptions C06_missing_kind.
+
+Theorem C06_missing_attribute : forall enable x is_exp seed kind key attr salt i,
+  (is_exp || negb (ref_defined attr) || negb (ref_has_err attr)) = true -> ctx_by_kind x kind = Some i ->
+  get_value_for_ref i (effective_ref is_exp attr) = JNull ->
+  compute_bucket enable x is_exp seed kind key attr salt = Ok (f32_zero, BNotFound).
+Proof. exact bucket_missing_attribute. Qed.
+Print Assumptions C06_missing_attribute.
+
+Theorem C06_wrong_type : forall enable x is_exp seed kind key attr salt i v,
+  (is_exp || negb (ref_defined attr) || negb (ref_has_err attr)) = true -> ctx_by_kind x kind = Some i ->
+  get_value_for_ref i (effective_ref is_exp attr) = v ->
+  match v with JBool _ | JArr _ | JObj _ => True | JNum d => dy_is_int d = false | _ => False end ->
+  compute_bucket enable x is_exp seed kind key attr salt = Ok (f32_zero, BWrongType).
+Proof. exact bucket_wrong_type. Qed.
+Print Assumptions C06_wrong_type.
+
+(* the growable buffer: contents = concatenation, for every initial capacity and every operation sequence *)
+Theorem C06_buffer_refines_concat : forall cap ops,
+  buf_data (fold_left buf_step ops (buf_new cap)) = concat (map op_bytes ops).
+Proof. exact buffer_refines_concat. Qed.
+Print Assumptions C06_buffer_refines_concat.
+
+(* the hex parser reads digit strings as numbers, without wrap-around as long as the value fits 64 bits *)
+Theorem C06_hex_digits : forall ns acc,
+  Forall (fun d => (0 <= d < 16)%Z) ns -> (0 <= acc)%Z -> (nib_val acc ns < two64)%Z ->
+  parse_hex_aux acc (map nibble_char ns) = Some (nib_val acc ns).
+Proof. exact parse_hex_aux_nibbles. Qed.
+Print Assumptions C06_hex_digits.
+
+Theorem C06_sha1_fips_vectors :
+  hex_encode (sha1 (s "abc")) = s "a9993e364706816aba3e25717850c26c9cd0d89d" /\
+  hex_encode (sha1 []) = s "da39a3ee5e6b4b0d3255bfef95601890afd80709" /\
+  hex_encode (sha1 (s "abcdbcdecdefdefgefghfghighijhijkijkljklmklmnlmnomnopnopq")) = s "84983e441c3bd26ebaae4aa1f95129e5e54670f1".
+Proof. exact (conj sha1_abc (conj sha1_empty sha1_448)). Qed.
+Print Assumptions C06_sha1_fips_vectors.
+
+Theorem C06_prefix_of_fips_vector :
+  parse_hex (firstn hash_prefix_len (hex_encode (sha1 (s "abc")))) = Some 763804216667957270%Z.
+Proof. exact prefix15_abc. Qed.
+Print Assumptions C06_prefix_of_fips_vector.
